@@ -26,7 +26,7 @@ LEVEL_NOTE = ("Trusted: vlib/model/busmodel.py for map()/advance; the wrapper ob
 DESIGN_REF = "DESIGN.md §3 C02"
 ASSUMPTIONS = ["labels under @= relocation, in macro bodies and in loops are covered by oracle (1) only"]
 
-PROFILE = progen.Profile(unsized_symbols=True, shadowing=True, param_named_consts=True, max_stmts=14, max_depth=3, edge_weight=0.5, call_weight=5)
+PROFILE = progen.Profile(unsized_symbols=True, shadowing=True, param_named_consts=True, max_stmts=14, max_depth=4, edge_weight=0.5, call_weight=4, scope_weight=4, block_weight=4)
 
 # ---- run-time wrapping (from the harness side) --------------------------------------------------------------
 _REC = None
@@ -66,7 +66,10 @@ def _install():
                 def emit(self, addr, _o=orig_e):
                     r = _o(self, addr)
                     if _REC is not None:
-                        _REC.append(("e", id(self), type(self).__name__, addr.logical_value, len(r) if r else 0))
+                        fi = getattr(self, "file_info", None)
+                        pos = getattr(fi, "position", None)
+                        _REC.append(("e", id(self), type(self).__name__, addr.logical_value, len(r) if r else 0,
+                                     (getattr(getattr(pos, "file", None), "filename", None), getattr(pos, "line", None)) if pos is not None else None))
                     return r
 
                 cls.emit = emit
@@ -119,6 +122,28 @@ def enum_units(tier, seed):
         {"rom": "high", "files": {}, "ir": [{"k": "const", "n": "kx_a", "e": L(0x10), "eager": True}, {"k": "org", "a": 0xC0FFFD},
                                            {"k": "block", "b": [lda(["id", "kx_a"]), {"k": "const", "n": "kx_a", "e": L(0x123456), "eager": False}]}] + sp("lb_after")},
     ]
+    # a qualified name that an outer named scope already exports when it is first evaluated (label pass) and that a nearer
+    # scope of the same name (defined later, inside the enclosing block / scope / loop / macro) must win at emission
+    def named(body):
+        return {"k": "scope", "n": "sc_a", "b": body}
+
+    outer = named([{"k": "data", "d": "db", "es": [L(1)]}, {"k": "label", "n": "lb_a"}, {"k": "data", "d": "db", "es": [L(2)]}])
+    inner = named([{"k": "data", "d": "db", "es": [L(3)]}, {"k": "label", "n": "lb_a"}, {"k": "data", "d": "db", "es": [L(4)]}])
+    for ref in (lda(["id", "sc_a.lb_a"]), {"k": "ins", "m": "sta", "shape": ["", None, "x"], "sfx": "", "e": ["id", "sc_a.lb_a"]},
+                {"k": "data", "d": "dl", "es": [["id", "sc_a.lb_a"]]}):
+        for order in ("ref-first", "scope-first"):
+            body = [ref, inner] if order == "ref-first" else [inner, ref]
+            for ctx in ("block", "named", "loop", "macro"):
+                if ctx == "block":
+                    wrap = [{"k": "block", "b": body}]
+                elif ctx == "named":
+                    wrap = [{"k": "scope", "n": "sc_w", "b": body}]
+                elif ctx == "loop":
+                    wrap = [{"k": "for", "v": "i_0", "lo": ["lit", 0, "d"], "hi": ["lit", 2, "d"], "b": body}]
+                else:
+                    wrap = [{"k": "macro", "n": "m_w", "ps": [], "b": body}, {"k": "call", "n": "m_w", "args": []}]
+                for org in (0x008000, 0x128000):
+                    cases.append({"rom": "low", "files": {}, "ir": [{"k": "org", "a": org}, outer] + wrap + sp("lb_end")})
     return {"units": [{"cases": cases}], "exhaustive": False}
 
 
@@ -178,7 +203,7 @@ def run_case(case) -> Outcome:
     _install()
     ir, rom, files = case["ir"], case["rom"], case.get("files") or {}
     bus = busmodel.builtin(rom)
-    src, inc, _ = render.render(ir)
+    src, inc, rnd = render.render(ir)
     out = Outcome(evals=1, labels=[f"rom:{rom}"])
     first = next((st for st in ir if st["k"] not in ("const", "macro", "map")), None)
     if first is None or first["k"] != "org":
@@ -208,7 +233,7 @@ def run_case(case) -> Outcome:
     n_checked = 0
     crossing = False
     for e in emitted:
-        _, nid, cls, ae, n = e
+        _, nid, cls, ae, n = e[:5]
         p = p1.get(nid)
         if p is None:
             continue  # nodes the label pass skips (symbol definitions)
@@ -273,6 +298,35 @@ def run_case(case) -> Outcome:
                 covering = [a for a, d in real["blocks"] if a <= off < a + len(d)]
                 if len(covering) == 1:
                     out.bad("blackbox:incbin-symbol", case, f".incbin symbol {name} = {v:#08x} does not point at the file's first bytes\n{src}")
+    # ---- (2b) explicit-size twin: writing the inferred width as a suffix must not change anything ---------------------
+    by_line = {}
+    for e in emitted:
+        if e[2] == "OpcodeNode" and len(e) > 5 and e[5] and e[5][0] == "main.s":
+            by_line.setdefault(e[5][1], set()).add(e[4])
+    stmt_at = {ln: st for f, ln, st in rnd.positions if f == "main.s"}
+    import copy as _copy
+
+    twin_ir = _copy.deepcopy(ir)
+    twin_pos = {ln: st for f, ln, st in render.render(twin_ir)[2].positions if f == "main.s"}
+    n_sized = 0
+    for ln, sizes in by_line.items():
+        st0, st1 = stmt_at.get(ln), twin_pos.get(ln)
+        if st0 is None or st1 is None or st0.get("k") != "ins" or st0.get("sfx") or st0.get("e") is None or len(sizes) != 1:
+            continue
+        n = next(iter(sizes))
+        if st0["m"] in ("bra", "bne", "beq", "bcc", "bcs", "bmi", "bpl", "bvc", "bvs") or n not in (2, 3, 4):
+            continue
+        st1["sfx"] = {2: "b", 3: "w", 4: "l"}[n]
+        n_sized += 1
+    if n_sized:
+        tsrc, tinc, _ = render.render(twin_ir)
+        treal = driver.assemble_mem(tsrc, rom=rom, files={**files, **tinc})
+        out.evals += 1
+        out.labels.append("sized-twin")
+        if not treal.accepted:
+            out.bad("sized-twin:rejected", case, f"adding the inferred width as an explicit suffix to {n_sized} instruction(s) makes the program fail: {treal['exc']} {treal.failure_text[:200]}\n--- original\n{src}\n--- twin\n{tsrc}")
+        elif treal["blocks"] != real["blocks"] or sorted(treal["labels"]) != sorted(real["labels"]):
+            out.bad("sized-twin:differs", case, f"the program with the inferred widths written as suffixes assembles differently: {driver.blocks_json(real['blocks'], 24)} vs {driver.blocks_json(treal['blocks'], 24)}\n--- original\n{src}\n--- twin\n{tsrc}")
     # ---- (3) reference model where applicable -----------------------------------------------------------------
     model = refasm.assemble(ir, rom=rom, files=model_files(files))
     out.labels.append(f"model:{model.status}")
